@@ -69,6 +69,11 @@ def make_signature(rng, present, max_per_kind, force_counts=None, composite=Fals
         k += 1
         return a if rng.random() < 0.85 else None
 
+    def dflt(a, base):
+        # defaults need not be hashable: mutable literals are ordinary defaults
+        table = {"list[int]": "[]", "dict[str, float]": "{}", "set[fractions.Fraction]": "set()", "tuple[int, ...]": "()", None: rng.choice([base, "[]", "{}", "None"])}
+        return table.get(a, base) if rng.random() < 0.6 else base
+
     po, pk, va, ko, vk = present
     npo = rng.randrange(1, max_per_kind + 1) if po else 0
     npk = rng.randrange(1, max_per_kind + 1) if pk else 0
@@ -79,17 +84,20 @@ def make_signature(rng, present, max_per_kind, force_counts=None, composite=Fals
         if defaults_started or rng.random() < 0.2:
             defaults_started = True
             d = "'9'"
-        params.append((f"p{i}", "po", ann(), d))
+        a_ = ann()
+        params.append((f"p{i}", "po", a_, dflt(a_, d) if d is not None else None))
     for i in range(npk):
         d = None
         if defaults_started or rng.random() < 0.25:
             defaults_started = True
             d = "'8'"
-        params.append((f"q{i}", "pk", ann(), d))
+        a_ = ann()
+        params.append((f"q{i}", "pk", a_, dflt(a_, d) if d is not None else None))
     if va:
         params.append(("rest", "va", ann(), None))
     for i in range(nko):
-        params.append((f"k{i}", "ko", ann(), "'7'" if rng.random() < 0.3 else None))
+        a_ = ann()
+        params.append((f"k{i}", "ko", a_, dflt(a_, "'7'") if rng.random() < 0.3 else None))
     if vk:
         params.append(("extra", "vk", ann(), None))
     return params
